@@ -16,6 +16,7 @@ import (
 	"path/filepath"
 	"sort"
 	"strconv"
+	"strings"
 	"sync"
 	"time"
 
@@ -162,7 +163,7 @@ func judge(s caseSpec, lg caseLog) (j judged) {
 		}
 		blocking := n["acquired_r_blocking"] + n["acquired_w_blocking"]
 		writers := n["acquired_w_try"] + n["acquired_w_blocking"] + n["acquired_w_upgrade"]
-		j.nontriv = n["conflict"] > 0 && blocking > 0 && writers > 0 && rr > 0 && len(lg.Prog) == 2
+		j.nontriv = n["conflict"] > 0 && blocking > 0 && writers > 0 && rr > 0 && len(lg.Prog) == 3
 	default:
 		judgeRT(lg, add, &j)
 	}
@@ -271,14 +272,14 @@ func genCase(no int, r *rand.Rand) caseSpec {
 }
 
 func run(c *vf.Ctx) {
-	c.Rule("case = one primitive (gate / multi-reader-single-writer lock / ready-target) x seeded parameters (2-8 goroutines, ~6k operations (ready-target: ~2k subscriptions against ~200 signals), try/blocking/retry/upgrade mix, yields, hold lengths, 0-4 concurrent Resets), run on the real primitives through vexport in a child process, once in the normal and once in the -race build. non-trivial = contention was observed (gate: refused Begins and >=2 different holders; lock: refused tries, blocking acquires, writers, overlapping readers and both progress scenarios ran; ready-target: subscribers woken by a later Signal as well as immediately-closed subscriptions); distinct by (parameters, build)")
+	c.Rule("case = one primitive (gate / multi-reader-single-writer lock / ready-target) x seeded parameters (2-8 goroutines, ~6k operations (ready-target: ~2k subscriptions against ~200 signals), try/blocking/retry/upgrade mix, yields, hold lengths, 0-4 concurrent Resets), run on the real primitives through vexport in a child process, once in the normal and once in the -race build. non-trivial = contention was observed (gate: refused Begins and >=2 different holders; lock: refused tries, blocking acquires, writers, overlapping readers and all three progress scenarios ran; ready-target: subscribers woken by a later Signal as well as immediately-closed subscriptions); distinct by (parameters, build)")
 	c.Assume("hold intervals are stamped inside the critical section (after a successful acquire, before the release), so two overlapping stamp intervals mean two holders were really inside together")
 	c.Assume("ready-target wake-ups are judged on logical stamps only: a closed channel needs a Signal(>=target) call that began before the wake was observed (and was not wiped by a Reset completed before Subscribe began); an open channel is a violation only when a sufficient Signal certainly took effect while the subscriber was registered and no Reset could have dropped it")
 	c.Assume("progress (wall clock, used only here): blocking acquirers are released after every holder left; <=2 s held, 2-10 s or a heartbeat gap >=0.5 s inconclusive, still blocked after 10 s with a healthy heartbeat = violation")
 
-	nCases := c.N(200, 6000)
+	nCases := c.N(150, 5000)
 	chunk := c.N(10, 50)
-	par := 6
+	par := 4
 	tmp := vf.TempDir("c34")
 	defer os.RemoveAll(tmp)
 	r := c.Rand(1)
@@ -299,6 +300,8 @@ func run(c *vf.Ctx) {
 	tot := map[string]int64{}
 	var racePrefixes []string
 	sampled := map[string]int{}
+	crashSeen := map[int]bool{}
+	var crashTails, crashInPkg []string
 	jobCh := make(chan int)
 	var wg sync.WaitGroup
 	for p := 0; p < par; p++ {
@@ -397,7 +400,19 @@ func run(c *vf.Ctx) {
 							why = "worker timed out"
 						} else if code != 0 {
 							why = "worker exited " + strconv.Itoa(code) + " before the case"
-							c.Logf("worker job %d exit %d: %s", ji, code, tailFile(logPath, 1500))
+							tail := tailFile(logPath, 6000)
+							c.Logf("worker job %d exit %d: %s", ji, code, tail)
+							mu.Lock()
+							if !crashSeen[ji] {
+								crashSeen[ji] = true
+								if len(crashTails) < 4 {
+									crashTails = append(crashTails, fmt.Sprintf("job %d exit %d: %s", ji, code, tail))
+								}
+								if (strings.Contains(tail, "panic:") || strings.Contains(tail, "fatal error:")) && strings.Contains(tail, anchoredPkg) {
+									crashInPkg = append(crashInPkg, tail)
+								}
+							}
+							mu.Unlock()
 						}
 						c.Inconclusive(why)
 					}
@@ -415,6 +430,12 @@ func run(c *vf.Ctx) {
 	close(jobCh)
 	wg.Wait()
 
+	for _, t := range crashInPkg {
+		c.Violation("worker:crash-in-rsync", "the worker process died with a panic / fatal error whose stack is inside the anchored package", t)
+	}
+	if len(crashTails) > 0 {
+		c.Extra("worker_failures", crashTails)
+	}
 	var anchoredRaces, otherRaces, raceBlocks int
 	var otherList []string
 	for _, p := range racePrefixes {
